@@ -178,7 +178,7 @@ def r03_1(ctx: Ctx):
         ctx.fail(rid, f'role {e.role}', 'iOpt/', str(e), key=f'{rid}::role::{e.role}')
         return
     pcs = roles.problem_calcs
-    ex = ctx.explorer(inline=lambda f, st: f is tw)
+    ex = ctx.explorer(inline=lambda f, st: roles.in_tw(f))
     fld = trials_field(ctx)
     n = 0
     for p in C.normal_paths(ex.explore(er)):
@@ -235,7 +235,7 @@ def r03_2(ctx: Ctx):
     n = 0
     for e in roles.evaluators:
         q = roles.fq(e)
-        if q in sreach and q not in refine and e is not tw:
+        if q in sreach and q not in refine and not roles.in_tw(e):
             ctx.fail(rid, e.short, e.loc(), 'an additional caller of Problem.Calculate is reachable from the global '
                                             'search: its evaluations are not counted', key=f'{rid}::{e.short}')
         n += 1
@@ -664,7 +664,7 @@ def r03_7_failed_iteration_leaves_loop(ctx: Ctx):
             continue          # no failure, or the exception leaves Solve (it terminates by raising)
         n += 1
         i0 = fails[0]
-        later = [e for e in p.events[i0:] if e.kind == 'call' and e.func is tw and
+        later = [e for e in p.events[i0:] if e.kind == 'call' and roles.in_tw(e.func) and
                  any(isinstance(c, FuncInfo) and roles.fq(c) in pcs for c in e.d['callees'])]
         catches = [e for e in p.events[i0:] if e.kind == 'catch']
         where = sd.loc(catches[0].node) if catches else sd.loc()
@@ -693,11 +693,12 @@ def r03_8(ctx: Ctx):
         return
     # which parameter fields does the stop routine read?
     read = set()
-    for nd in ast.walk(sr.node):
-        if isinstance(nd, ast.Attribute) and isinstance(nd.ctx, ast.Load):
-            objs = ctx.pta.expr_pts(sr, nd.value)
-            if any(o.cls is not None and o.cls.is_subclass_of(pc) for o in objs):
-                read.add(nd.attr)
+    for srf in roles.helpers_of(sr):            # the stop routine and the named predicates it was split into
+        for nd in ast.walk(srf.node):
+            if isinstance(nd, ast.Attribute) and isinstance(nd.ctx, ast.Load):
+                objs = ctx.pta.expr_pts(srf, nd.value)
+                if any(o.cls is not None and o.cls.is_subclass_of(pc) for o in objs):
+                    read.add(nd.attr)
     ctx.floor(rid, 'parameter fields read by the stop routine', len(read), 2)
     n = 0
     for fld in sorted(read):
